@@ -22,6 +22,14 @@ void harness(void) {
 			VF_ASSERT(gost3411_2012_Ax[j][b] == vf_gost_expand(j, (uint8_t)b),
 			    "Ax[j][b] == L(P(S())) contribution of byte value b at word j (RFC 6986 pi, tau, A)");
 #endif
+#ifdef GOST3411_2012_USE_SMALL_TABLES
+	for (unsigned b = 0; b < 256; b++)
+		VF_ASSERT(gost3411_2012_sbox[b] == vf_gost_pi[b], "small tables: sbox == pi (RFC 6986 5.2)");
+	for (unsigned t = 0; t < 64; t++) {
+		VF_ASSERT(gost3411_2012_A[t] == vf_gost_A[t], "small tables: A (RFC 6986 5.4)");
+		VF_ASSERT(GOST3411_2012_TAU(t) == 8 * (t & 7) + (t >> 3), "small tables: tau == byte-matrix transpose (RFC 6986 5.3)");
+	}
+#endif
 	for (unsigned r = 0; r < 12; r++)
 		for (unsigned i = 0; i < 8; i++)
 			VF_ASSERT(gost3411_2012_C[r][i] == vf_gost_C[r][i], "iteration constants C_1..C_12");
